@@ -1866,7 +1866,18 @@ class unyt_array(np.ndarray):
                 # express it in the array's unit, or refuse
                 if initial.units.dimensions != u.dimensions:
                     raise UnitOperationError(ufunc, u, initial.units)
-                kwargs["initial"] = initial.to_value(u)
+                if ufunc is add and initial.units != u and (
+                    u.base_offset or initial.units.base_offset
+                ):
+                    # Celsius / Fahrenheit readings: the start value is added, so
+                    # like the + operator it has to be a difference (K, delta_degC)
+                    if initial.units.base_offset:
+                        raise UnitOperationError(ufunc, u, initial.units)
+                    kwargs["initial"] = initial.value * (
+                        initial.units.base_value / u.base_value
+                    )
+                else:
+                    kwargs["initial"] = initial.to_value(u)
             # get unit of result first: a refused unit must not leave numbers in out
             if ufunc in (multiply, divide) and method == "reduce":
                 mul, unit = _apply_power_mapping(ufunc, u, inp.size, inp.shape, kwargs)
